@@ -1,5 +1,6 @@
 import QcelVerif.Model.Fragments
 import QcelVerif.Model.Formula
+import QcelVerif.Model.FormulaRe
 import QcelVerif.Lib.Proto
 /-! Line-protocol driver for the C15 models.
 
@@ -7,6 +8,13 @@ import QcelVerif.Lib.Proto
   ne|atoms|real|frags|fc|fm|c|m                  electrons of a molecule, total and per fragment
   nre|zeff,..|sel(a,b,.. | N)|n|d(0,1) d(0,2) ...  upper-triangle distances (rationals), row-major
   fs|order|sym,sym,..        of|order|formula        gm|order|chgmult|c|m|sym,sym,..
+
+the two regexes of order_molecular_formula, hand model AND generic engine on the AST generated from the source (text as hex
+of ASCII bytes; strings in answers are s<hex>):
+  cut|<hex>      -> ok <hand unmatched prefix>|<hand chunks s..,s..>|<engine re.findall(<cut>, text) s..,s..>
+  spl|<hex>      -> ok <hand name>:<hand n>|<engine re.match(<split>, text): none | <group name>:<group count>:<name>:<n>>
+  ofr|order|formula -> order_molecular_formula through the generated regexes: ok <str> | err other:ValueError | err other:AssertionError
+  fi|k|<hex>     -> ok <re.finditer(probe k, text)>: items s<group 0>[/N|/s<group i>]* joined by ','   (probes: engine tests, not from the source)
 -/
 open QcelVerif QcelVerif.Proto QcelVerif.Fragments QcelVerif.Formula
 
@@ -62,8 +70,68 @@ def triDist (n : Nat) (d : List Rat) (i j : Nat) : Rat :=
   -- index of (a,b), a<b, in row-major upper triangle
   d.getD (a * n - a * (a + 1) / 2 + (b - a - 1)) 0
 
+def hexVal15 (c : Char) : Option Nat :=
+  if '0' ≤ c && c ≤ '9' then some (c.toNat - 48) else if 'a' ≤ c && c ≤ 'f' then some (c.toNat - 87) else none
+
+def unhex15 : List Char → Option (List Nat)
+  | [] => some []
+  | [_] => none
+  | a :: b :: t => do
+      let x ← hexVal15 a; let y ← hexVal15 b; let r ← unhex15 t
+      pure ((x * 16 + y) :: r)
+
+def hexDigit15 (n : Nat) : Char := if n < 10 then Char.ofNat (48 + n) else Char.ofNat (87 + n)
+def hex15 (b : List Nat) : String := String.ofList (b.flatMap fun c => [hexDigit15 (c / 16), hexDigit15 (c % 16)])
+def hexS (b : List Nat) : String := "s" ++ hex15 b
+def hexItems (l : List (List Nat)) : String := ",".intercalate (l.map hexS)
+def hexOpt : Option (List Nat) → String
+  | some b => hexS b
+  | none => "N"
+
+def showFound (ngroups : Nat) (f : Regex.Found) : String :=
+  hexS f.text ++ String.join ((List.range ngroups).map fun i => "/" ++ hexOpt (f.group (i + 1)))
+
+def stepRegex (op : String) (args : List String) : Option String :=
+  match op, args with
+  | "cut", [h] =>
+    (unhex15 h.toList).map fun b =>
+      let l := ofCodes b
+      let (pre, ms) := cutUpper l
+      s!"ok {hexS (toCodes pre)}|{hexItems (ms.map toCodes)}|{hexItems (Gen.FormulaRegex.cut.findall0 b)}"
+  | "spl", [h] =>
+    (unhex15 h.toList).map fun b =>
+      let l := ofCodes b
+      let (k, n) := splitCount l
+      let eng := match Gen.FormulaRegex.split.matchPrefix b with
+        | none => "none"
+        | some st =>
+          let r := match splitCountRe l with
+            | some (k', n') => s!"{hexS (toCodes k'.toList)}:{n'}"
+            | none => "X"
+          s!"{hexOpt (st.group Gen.FormulaRegex.nameGroup)}:{hexOpt (st.group Gen.FormulaRegex.countGroup)}:{r}"
+      s!"ok {hexS (toCodes k.toList)}:{n}|{eng}"
+  | "fi", [k, h] =>
+    match parseNat? k, unhex15 h.toList with
+    | some k, some b =>
+      match Gen.FormulaRegex.probes[k]? with
+      | some (r, ng) => some ("ok " ++ ",".intercalate ((r.finditer b).map (showFound ng)))
+      | none => none
+    | _, _ => none
+  | _, _ => none
+
 def stepC15 (line : String) : String :=
   match splitOnChar line '|' with
+  | ["cut", h] => (stepRegex "cut" [h]).getD "bad-op"
+  | ["spl", h] => (stepRegex "spl" [h]).getD "bad-op"
+  | ["fi", k, h] => (stepRegex "fi" [k, h]).getD "bad-op"
+  | ["ofr", o, f] =>
+    match parseOrd? o with
+    | some ord =>
+      match orderFormulaRe f ord with
+      | .ok s => "ok " ++ s
+      | .error .invalid => "err other:ValueError"
+      | .error .assertion => "err other:AssertionError"
+    | none => "err other:ValueError"
   | ["gf", g, r, gh, at_, rl, fr, fc, fm, c, m] =>
     match parseBits? g, parseNatList? r ',', parseNatList? gh ',', parseMol? at_ rl fr fc fm c m with
     | some [g], some r, some gh, some mol =>
